@@ -586,6 +586,8 @@ def simulated_process(spec, phase, root):
     cli = dict(DEFAULT_CLI)
     cli.update(spec.get('cli', {}))
     cli['label_column'] = spec.get('cli', {}).get('label_column', wl['label'])
+    if wl.get('source'):
+        cli['data_source'] = wl['source']
     work = os.path.join(root, 'work')
     os.makedirs(work, exist_ok=True)
     os.chdir(work)
@@ -676,6 +678,8 @@ def simulated_process(spec, phase, root):
     outdir = os.path.join(work, 'out')
     if os.path.isdir(outdir):
         for f in sorted(os.listdir(outdir)):
+            if f == 'arguments.json':
+                continue       # echoes --data_path, i.e. the name of the simulated machine's private directory
             with simfs.real_open(os.path.join(outdir, f), 'rb') as fh:
                 files[f] = hashlib.blake2b(fh.read(), digest_size=8).hexdigest()
     extra['files'] = files
@@ -746,6 +750,9 @@ def job_run(job):
         os.makedirs(os.path.join(root, 'data'))
         with open(os.path.join(root, 'data', 'data.csv'), 'wb') as fh:
             fh.write(wlmod.render(a['workload']))
+        if a['workload'].get('source') == 'ob-csv':
+            with open(os.path.join(root, 'data', 'dataset_desc.json'), 'w') as fh:
+                fh.write(wlmod.dataset_desc(a['workload']))
         if a.get('dirty_files'):
             os.makedirs(os.path.join(root, 'work', 'out'), exist_ok=True)
             for rel, content in a['dirty_files'].items():
